@@ -154,6 +154,19 @@ fn enumerate(tier: Tier, idx: u32, of: u32, cx: &mut Cx) -> CaseResult {
         crate::engine::force_remove(&sub);
         cx.add_evals(1);
         cx.inner_nontrivial += 1;
+        // ... and of one very large file between small ones
+        crate::engine::heartbeat();
+        let (opts, tree) = crate::probes::huge_file_tree();
+        let sub = cx.dir("huge-file");
+        std::fs::create_dir_all(&sub).unwrap();
+        let mut cx2 = crate::engine::sub_cx(cx, sub.clone());
+        run(&Case::Walk { opts, tree }, &mut cx2).map_err(|mut f| {
+            f.signature = format!("{}/probe-huge-file", f.signature);
+            f
+        })?;
+        crate::engine::force_remove(&sub);
+        cx.add_evals(1);
+        cx.inner_nontrivial += 1;
     }
     let (idx, of) = (idx as usize, of as usize);
     // (a) ordered pairs over the depth<=4 universe
@@ -408,7 +421,7 @@ pub fn prop() -> Prop<Case> {
     Prop {
         id: "C11",
         level: "exploration",
-        rule: "enumeration: every ordered pair of the 4681 paths of depth<=4 over {a, a., a-, 'a b', b, é, .x, ~} (cmp vs documented order, antisymmetry, equality), every triple of the 259 paths of depth<=3 over 6 of them (transitivity), contiguity/children-first on the depth<=3 universe, is_valid on every string of <=4 (thorough 5) components over {'', ., .., a\\0b, a, é, a., ..a, \\0} x leading/trailing slash; generated: random longer paths/strings and trees (source walk, listing and independently decoded index each strictly increasing under the reference order and equal to the model's path set). Non-trivial pair = distinct paths sharing the first component whose depths differ or one textually prefixes the other; non-trivial tree = >=2 directory levels with sibling names that extend one another; enumerated items are distinct by construction, generated ones by case hash. A tenth of the tree cases truncate a later file of the same directory while the backup runs (index and listing must stay strictly increasing); one fixed scale probe per run (10 012 files, one entry per hunk)",
+        rule: "enumeration: every ordered pair of the 4681 paths of depth<=4 over {a, a., a-, 'a b', b, é, .x, ~} (cmp vs documented order, antisymmetry, equality), every triple of the 259 paths of depth<=3 over 6 of them (transitivity), contiguity/children-first on the depth<=3 universe, is_valid on every string of <=4 (thorough 5) components over {'', ., .., a\\0b, a, é, a., ..a, \\0} x leading/trailing slash; generated: random longer paths/strings and trees (source walk, listing and independently decoded index each strictly increasing under the reference order and equal to the model's path set). Non-trivial pair = distinct paths sharing the first component whose depths differ or one textually prefixes the other; non-trivial tree = >=2 directory levels with sibling names that extend one another; enumerated items are distinct by construction, generated ones by case hash. A tenth of the tree cases truncate a later file of the same directory while the backup runs (index and listing must stay strictly increasing); two fixed scale probes per run (10 012 files, one entry per hunk; one 272 MiB file between small ones)",
         assumptions: &[
             "reference order written from doc/format.md on byte slices, independent of src/apath.rs",
             "release-like build: conserve's debug-only order assertions are compiled out, so the oracle is the harness's own",
